@@ -674,9 +674,14 @@ class Interp:
                 yield from self.call_value(SBound(a.fget, o), [], {}, st, node)
             elif isinstance(a, functools.cached_property):
                 # computed on first access, then stored on the instance under the same name
+                # (a WRITE to the instance: it goes through setattr, so that frozen / read-only objects and the frame
+                # clauses see it - memoising on an argument object mutates that argument)
                 for r, s1 in self.call_value(SBound(a.func, o), [], {}, st, node):
                     if not isinstance(r, Raised):
                         o1 = find_by_oid(s1, o.oid) or o
+                        if o1.frozen or getattr(o1, 'described', False):
+                            self.err(node, f'cached_property {name} stores its value on a pre-existing {o.cls.__name__} object '
+                                           f'({o1.label}): the call mutates an object it was given')
                         o1.fields[name] = r
                     yield r, s1
             elif isinstance(a, types.FunctionType):
